@@ -124,14 +124,15 @@ func protoParams(ps []param) []*proto.Parameter {
 }
 
 type verdict struct {
-	Invalid  string            `json:"invalid,omitempty"`
-	Kinds    map[string]string `json:"kinds,omitempty"`
-	Orig     string            `json:"orig"`
-	Rew      string            `json:"rew"`
-	Params   []param           `json:"params,omitempty"`
-	OrigND   bool              `json:"orig_nondeterministic"`
-	Scanned  bool              `json:"-"`
-	PinEvals int               `json:"-"`
+	Invalid     string            `json:"invalid,omitempty"`
+	Kinds       map[string]string `json:"kinds,omitempty"`
+	Orig        string            `json:"orig"`
+	Rew         string            `json:"rew"`
+	Params      []param           `json:"params,omitempty"`
+	OrigND      bool              `json:"orig_nondeterministic"`
+	Scanned     bool              `json:"-"`
+	Unconfirmed int               `json:"-"`
+	PinEvals    int               `json:"-"`
 }
 
 // processFn runs the rewriter on one statement and reports the text, the
@@ -327,7 +328,7 @@ func canonical(kind string, c call, failing string) (call, bool) {
 	case "out":
 		n = call{Fn: "random", Pos: c.Pos, Gap: c.Gap, Case: c.Case}
 	case "cond":
-		n = call{Fn: "date", Form: "now", Pos: c.Pos, Gap: c.Gap, Case: c.Case, Wrap: "lt25"}
+		n = call{Fn: "date", Form: "now", Pos: c.Pos, Gap: c.Gap, Case: c.Case}
 	default:
 		n = call{Fn: "date", Form: "now", Pos: c.Pos, Gap: c.Gap, Case: c.Case}
 	}
@@ -356,8 +357,8 @@ func reductions(sp *spec, kind string) []*spec {
 	}
 	rekind := func(to string) {
 		add(func(s *spec) bool {
-			if s.Kind == to {
-				return false
+			if s.Kind == to || s.Kind == "select" {
+				return false // select is the plainest kind, insert the plainest write
 			}
 			s.Kind = to
 			if to == "select" {
@@ -385,6 +386,9 @@ func reductions(sp *spec, kind string) []*spec {
 		for i := range s.Calls {
 			if s.Calls[i].Pos == "returning" {
 				s.Calls[i].Pos = defaultPos(s.Kind)
+				if n, ok := canonical(s.Kind, s.Calls[i], kind); ok {
+					s.Calls[i] = n
+				}
 				moved = true
 			}
 		}
@@ -495,7 +499,7 @@ func jumps(sp *spec, kind string) []*spec {
 		if kind == "not-identical" {
 			base = call{Fn: "date", Form: "lit", Pos: defaultPos(n.Kind)}
 		} else if posRole(base.Pos) == "cond" {
-			base = call{Fn: "date", Form: "now", Wrap: "lt25", Pos: base.Pos}
+			base = call{Fn: "date", Form: "now", Pos: base.Pos}
 		}
 		n.Calls = []call{base}
 		n.Feats = []string{f}
@@ -550,6 +554,9 @@ func (ln *lane) minimize(sp *spec, kind string, judged *int64, mc *minCache) *sp
 		visited = append(visited, cur.sig())
 	}
 	mc.put(kind, visited, cur)
+	if *judged > 400 {
+		ln.c.Logf("long reduction (%d judgements) %s: %s -> %s", *judged, kind, sp.sig(), cur.sig())
+	}
 	return cur
 }
 
@@ -582,10 +589,9 @@ func run(c *vf.Ctx) {
 	dir := vf.TempDir("c14")
 	defer os.RemoveAll(dir)
 
-	nLanes := 5
-	if runtime.NumCPU() < 8 {
-		nLanes = 2
-	}
+	// one lane = three evaluator children; the reference is evaluated in-process
+	nLanes := 1
+	_ = runtime.NumCPU
 	var lanes []*lane
 	for i := 0; i < nLanes; i++ {
 		ln, err := startLane(c, i, dir)
@@ -625,14 +631,19 @@ func run(c *vf.Ctx) {
 		return
 	}
 
-	n := c.N(2400, 150000)
-	specs := make([]*spec, n)
-	for i := 0; i < n; i++ {
-		specs[i] = genSpec(c.Rand(uint64(i)))
+	n := c.N(1800, 20000)
+	if v := os.Getenv("C14_N"); v != "" { // development only
+		fmt.Sscanf(v, "%d", &n)
 	}
+	specs := systematic()
+	c.Extra("systematic_single_construct_cases", len(specs))
+	for i := 0; len(specs) < n; i++ {
+		specs = append(specs, genSpec(c.Rand(uint64(i))))
+	}
+	n = len(specs)
 	results := make([]*caseResult, n)
 	mc := &minCache{m: map[string]*spec{}}
-	const batch = 40
+	const batch = 100
 	var wg sync.WaitGroup
 	for li, ln := range lanes {
 		wg.Add(1)
@@ -651,6 +662,25 @@ func run(c *vf.Ctx) {
 					continue
 				}
 				vs := ln.judge(specs[start:end], processLocal)
+				// a failing verdict only counts when an independent second
+				// judgement (fresh rewrite, fresh evaluations) fails the same way
+				var again []*spec
+				var idx []int
+				for k, v := range vs {
+					if v.Invalid == "" && len(v.Kinds) > 0 {
+						again = append(again, specs[start+k])
+						idx = append(idx, k)
+					}
+				}
+				for j, v2 := range ln.judge(again, processLocal) {
+					v := vs[idx[j]]
+					for kind := range v.Kinds {
+						if _, ok := v2.Kinds[kind]; !ok || v2.Invalid != "" {
+							delete(v.Kinds, kind)
+							v.Unconfirmed++
+						}
+					}
+				}
 				for k, v := range vs {
 					i := start + k
 					sp := specs[i]
@@ -666,6 +696,21 @@ func run(c *vf.Ctx) {
 							ms = ln.minimize(sp, kind, &judged, mc)
 							c.Count("reductions_run", 1)
 							c.Count("reduction_judgements", judged)
+						}
+						if len(ms.Calls)+len(ms.Feats) > 2 {
+							// not reducible to one or two constructs: only believed
+							// when it fails three more times in a row
+							ok := true
+							for _, v3 := range ln.judge([]*spec{ms, ms, ms}, processLocal) {
+								if _, bad := v3.Kinds[kind]; !bad || v3.Invalid != "" {
+									ok = false
+								}
+							}
+							if !ok {
+								delete(v.Kinds, kind)
+								v.Unconfirmed++
+								continue
+							}
 						}
 						cr.Keys[kind] = kind + ":" + ms.sig()
 						cr.Min[kind] = ms
@@ -716,6 +761,13 @@ func run(c *vf.Ctx) {
 		}
 		if claimed == 0 {
 			c.Count("identity_cases", 1)
+		}
+		if v.Unconfirmed > 0 {
+			c.Count("verdicts_not_reproduced", int64(v.Unconfirmed))
+			if len(v.Kinds) == 0 {
+				c.Inconclusive("failing verdict not reproduced by a second judgement")
+				continue
+			}
 		}
 		if len(v.Kinds) == 0 {
 			c.Held(1)
